@@ -1,7 +1,7 @@
 (* Props/C06.v -- statements claimed for C06 (gradient / divergence), about Model/DiffGeo.v over R. *)
 From Coq Require Import List Arith Reals.
 From LaPyV Require Import Base.Scalar Base.Vec3 Base.ListAux Base.Sparse Model.TetMesh Model.TriaAdj Model.Fem Model.TriaGeom
-  Model.DiffGeo Proofs.SparseP Proofs.FemTriaP Proofs.FemTetP Proofs.DiffGeoP.
+  Model.DiffGeo Proofs.SparseP Proofs.FemTriaP Proofs.FemTetP Proofs.DiffGeoP Proofs.TetDivP.
 Import ListNotations.
 Open Scope R_scope.
 
@@ -71,3 +71,19 @@ Theorem C06_tet_divergence_element_adjoint : forall v f a b c d X, tet_guard_off
   - (tet_volume p0 p1 p2 p3 * dot Rops X (tet_grad p0 p1 p2 p3 (f a) (f b) (f c) (f d))).
 Proof. exact tet_div1_adjoint. Qed.
 Print Assumptions C06_tet_divergence_element_adjoint.
+
+(* ---- tetrahedra, assembled: sum_i f_i div(X)_i = - sum_t vol_t X_t . grad_t f for all f and X, whatever the element orientation *)
+Theorem C06_tet_divergence_is_negative_adjoint_of_gradient : forall v ts (f : nat -> R) (X : list V3),
+  Forall (tet_guard_off v) ts ->
+  Rsum (fun k => f k * nth k (tet_compute_divergence Rops v ts X) 0) (iota (div_len (tet_flat ts)))
+  = - Rsum (tet_pairing_rhs v f) (combine ts X).
+Proof. exact tet_divergence_adjoint. Qed.
+Print Assumptions C06_tet_divergence_is_negative_adjoint_of_gradient.
+
+(* div(grad g) = - A g on tetrahedral meshes, tested against every f *)
+Theorem C06_tet_div_grad_is_minus_stiffness : forall v ts (f g : nat -> R),
+  Forall (tet_guard_off v) ts -> tet_nondeg v ts ->
+  Rsum (fun k => f k * nth k (tet_compute_divergence Rops v ts (map (tet_grad1 Rops v g) ts)) 0) (iota (div_len (tet_flat ts)))
+  = - bil f (fem_tet_A Rops v ts) g.
+Proof. exact tet_div_grad_is_minus_A. Qed.
+Print Assumptions C06_tet_div_grad_is_minus_stiffness.
